@@ -1,6 +1,7 @@
 import ExoVerif.Driver.Common
 import ExoVerif.Model.Oracle
 import ExoVerif.Model.OracleParams
+import ExoVerif.Model.OracleParamsUpdate
 /- driver for the C12/C13/C14 correspondence (ops `orc.*`, see harness/dom_oracle.go) -/
 namespace ExoVerif.Driver.Oracle
 open ExoVerif.Oracle ExoVerif.Driver
@@ -173,6 +174,52 @@ def parseUpdates (w : String) : List (Nat × Int) :=
 def parseNatList (w : String) : List Nat :=
   if w = "-" then [] else (w.splitOn ",").filterMap (·.toNat?)
 
+/-! ### MsgUpdateParams payload (`orc.updparams`, harness/dom_oracle_paramsupd.go) -/
+
+def pSourceIn : P Source := fun ws =>
+  match ws with
+  | v :: d :: rest => some ({ valid := v == "1", det := d == "1" }, rest)
+  | _ => none
+
+def pTokenIn : P TokenIn := fun ws =>
+  match ws with
+  | e :: d :: rest => some ({ existing := parseNat! e, decimal := parseInt! d }, rest)
+  | _ => none
+
+def pRuleIn : P (List Nat) := fun ws =>
+  match ws with
+  | r :: rest => some (parseNatList r, rest)
+  | _ => none
+
+def pFeederIn : P Feeder := fun ws =>
+  match ws with
+  | t :: r :: sr :: sb :: iv :: e :: rest =>
+    some (Feeder.mk (parseNat! t) (parseNat! r) (parseNat! sr) (parseNat! sb) (parseNat! iv) (parseNat! e), rest)
+  | _ => none
+
+def pCounted {α} (p : P α) : P (List α) := fun ws =>
+  match ws with
+  | n :: rest => pMany p (parseNat! n) rest
+  | [] => none
+
+/-- `<maxSize> <nS> (valid det)* <nT> (existing decimal)* <nR> (ids|-)* <nF> (token rule startRound startBase interval end)*` -/
+def pParamsIn : P ParamsIn := fun ws =>
+  match ws with
+  | ms :: rest =>
+    match pCounted pSourceIn rest with
+    | some (ss, r1) =>
+      match pCounted pTokenIn r1 with
+      | some (ts, r2) =>
+        match pCounted pRuleIn r2 with
+        | some (rs, r3) =>
+          match pCounted pFeederIn r3 with
+          | some (fs, r4) => some ({ sources := ss, tokens := ts, rules := rs, maxSizePrices := parseInt! ms, feeders := fs }, r4)
+          | none => none
+        | none => none
+      | none => none
+    | none => none
+  | [] => none
+
 def emptyParams : Params :=
   { maxNonce := 3, thA := 2, thB := 3, maxDetID := 5, maxSizePrices := 100, sources := [], rules := [], tokenDecimals := [], feeders := [] }
 
@@ -227,6 +274,13 @@ def step (s : State) (w : List String) : State × String :=
     -- a MsgUpdateParams that the real handler refused (the reason is informative only): Model/OracleParams.lean
     let (s', ok) := updateParams s refusedUpdate
     (s', (if ok then "ok" else "rej") ++ "|" ++ fullObs s')
+  | "orc.updparams" :: _kind :: rest =>
+    -- a MsgUpdateParams whose payload the model runs through its own transcription of the handler's chain
+    match pParamsIn rest with
+    | some (inp, _) =>
+      let (s', ok) := updateParams s (applyUpdate inp)
+      (s', (if ok then "ok" else "rej") ++ "|" ++ fullObs s')
+    | none => (s, "bad-op")
   | ["orc.end", upd] =>
     match endBlock s (parseUpdates upd) with
     | some s' => (s', fullObs s')
